@@ -58,6 +58,16 @@ unsigned int ASpaceObject::getNDim(int) const { return (unsigned int)((const VfS
 ECalcVario::ECalcVario() : AEnum("UNDEFINED", -1, "Undefined") {}
 AVario::AVario() : AStringable(), _calcul() {}
 void AVario::setCalculByName(const String&) { _calcul._value = 0; } // the reader only ever asks for "vg" (VARIOGRAM = 0)
+// (a reader that restores the stored type goes through these two)
+void AVario::setCalcul(const ECalcVario& calcul) { _calcul._value = calcul._value; }
+struct VfEnumRaw { size_t klen; const char* kptr; int value; int pad; size_t dlen; const char* dptr; };
+static_assert(sizeof(VfEnumRaw) == sizeof(ECalcVario), "ECalcVario layout");
+static VfEnumRaw vf_calc_cell;
+const ECalcVario& ECalcVario::fromValue(int value)
+{
+  vf_calc_cell.value = (value >= 0 && value <= 13) ? value : -1; // unknown value: the default (UNDEFINED), as the library
+  return *(const ECalcVario*)&vf_calc_cell;
+}
 
 extern "C" void k_vario()
 {
